@@ -103,16 +103,41 @@ Definition user_call : M unit :=
   if bool_decide (crash_at s = Some (inv_count s)) then panic PInjected else ret tt.
 
 (* ------------------------------------------------------------ expert nodes, part 1 (kind/expert.rs) *)
+(* key-sorted association lists with integer values (BTreeMap / OrdMap) *)
+Fixpoint zm_get (k : Z) (m : list (Z * Z)) : option Z :=
+  match m with
+  | [] => None
+  | (k', v) :: m' => if bool_decide (k' = k) then Some v else zm_get k m'
+  end.
+Fixpoint zm_set (k v : Z) (m : list (Z * Z)) : list (Z * Z) :=
+  match m with
+  | [] => [(k, v)]
+  | (k', v') :: m' =>
+      if bool_decide (k < k') then (k, v) :: m
+      else if bool_decide (k = k') then (k, v) :: m'
+      else (k', v') :: zm_set k v m'
+  end.
+Definition zm_del (k : Z) (m : list (Z * Z)) : list (Z * Z) := filter (fun kv => kv.1 <> k) m.
+
 (* ExpertEdge::on_change (kind/expert.rs:49): the callback gets the child's current value *)
 Definition edge_on_change (p : nid) (e : nat) : M unit :=
   ed <- get_edge e ;;
-  if ed_cb ed then
+  match ed_cb ed with
+  | CbNone => ret tt
+  | CbLog =>
     v <- value_of (ed_child ed) ;;
     match v with
     | None => ret tt              (* linked before the child has a value, or the child is invalid *)
     | Some v => user_call ;;; emit (EvEdgeCb p e v) ;;; upd_edge e (fun ed => ed <| ed_seen := Some v |>)
     end
-  else ret tt.
+  | CbPerKey pk key =>
+    (* on_inner_change (btree_map.rs:157): acc.insert(key, value) *)
+    v <- value_of (ed_child ed) ;;
+    match v with
+    | None => ret tt
+    | Some v => upd_perkey pk (fun r => r <| pk_acc := zm_set key (as_int v) (pk_acc r) |>)
+    end
+  end.
 
 (* ExpertNode::run_edge_callback (kind/expert.rs:198) *)
 Definition run_edge_callback (p : nid) (x : nat) (ci : Z) : M unit :=
@@ -125,7 +150,9 @@ Definition run_edge_callback (p : nid) (x : nat) (ci : Z) : M unit :=
 
 (* ExpertNode::observability_change (kind/expert.rs:185) *)
 Definition observability_change (p : nid) (x : nat) (b : bool) : M unit :=
-  user_call ;;; emit (EvObsChange p b) ;;;
+  ex <- get_expert x ;;
+  (* the nodes of a per-key operator pass a handler that does nothing *)
+  (if bool_decide (2 <= ex_mode ex) then ret tt else user_call ;;; emit (EvObsChange p b)) ;;;
   if b then ret tt
   else upd_expert x (fun ex => ex <| ex_fire_all := true |> <| ex_num_invalid := 0 |>).
 
@@ -748,349 +775,6 @@ Definition drop_var_handle (x : vid) : M unit :=
 Definition with_var_handle (x : vid) (m : M unit) : M unit :=
   v <- get_var x ;; if bool_decide (v_handles v = 0%nat) then ret tt else m.
 
-(* ------------------------------------------------------------ expert nodes, part 2 (node.rs:1140-1300, state/expert.rs) *)
-(* assert_currently_running_node_is_child (node.rs:1146): debug builds only *)
-Definition assert_running_is_child (n : nid) : M unit :=
-  d <- gets debug ;;
-  if d : bool then
-    s <- get ;;
-    match cur_running s with
-    | None => panic POnlyDuringStabilise
-    | Some c =>
-        cx <- get_node c ;;
-        x <- get_node n ;;
-        if n_live cx && bool_decide (c ∈ children_of s x) then ret tt else panic PNotAChild
-    end
-  else ret tt.
-
-(* expert_make_stale (node.rs:1167) *)
-Definition expert_make_stale (n : nid) : M unit :=
-  x <- get_node n ;;
-  match node_kind x with
-  | Some (KExpert e) =>
-    assert_running_is_child n ;;;
-    ex <- get_expert e ;;
-    if ex_force_stale ex then ret tt else
-    upd_expert e (fun ex => ex <| ex_force_stale := true |>) ;;;
-    x <- get_node n ;;
-    if is_necessary x && negb (in_rch x) then rch_insert n else ret tt
-  | _ => ret tt
-  end.
-
-(* Node::add_dependency(_with) + expert_add_dependency (node.rs:1187).  Returns the edge (what the
-   Dependency points to); when the node is not a valid expert node the edge is dropped at once. *)
-Definition expert_add_dependency (fuel : nat) (n child : nid) (cb : bool) : M nat :=
-  s <- get ;;
-  let eid := length (edges s) in
-  x <- get_node n ;;
-  match node_kind x with
-  | Some (KExpert e) =>
-    ex <- get_expert e ;;
-    let ci := zlen (ex_children ex) in
-    modify (fun s => s <| edges := edges s ++ [Edge child cb (Some ci) None] |>) ;;;
-    upd_expert e (fun ex => ex <| ex_children := ex_children ex ++ [eid] |> <| ex_force_stale := true |>) ;;;
-    x <- get_node n ;;
-    (if is_necessary x then
-       state_add_parent fuel child ci n ;;;
-       dassert (x <- get_node n ;; s <- get ;; ret (needs_to_be_computed s x)) 410 ;;;
-       x <- get_node n ;;
-       if in_rch x then ret tt else rch_insert n
-     else ret tt) ;;;
-    ret eid
-  | _ =>
-    modify (fun s => s <| edges := edges s ++ [Edge child cb None None] |>) ;;; ret eid
-  end.
-
-(* expert_swap_children_except_in_kind (node.rs:1267) *)
-Definition expert_swap_children_except_in_kind (n child1 : nid) (ci1 : Z) (child2 : nid) (ci2 : Z) : M unit :=
-  dassert (s <- get ;; x <- get_node n ;;
-           ret (bool_decide (zget (children_of s x) ci1 = Some child1) && bool_decide (zget (children_of s x) ci2 = Some child2))) 430 ;;;
-  (* the index arrays of parent, child1 and child2 are mutably borrowed together (one borrow when the two
-     edges lead to the same child) *)
-  (if bool_decide (n = child1) || bool_decide (n = child2) then panic (PBorrow 431) else ret tt) ;;;
-  p <- get_node n ;;
-  c1 <- get_node child1 ;;
-  c2 <- get_node child2 ;;
-  match zget (n_pix_in_child p) ci1, zget (n_pix_in_child p) ci2 with
-  | Some i1, Some i2 =>
-    dassert (ret (bool_decide (zget (n_cix_in_parent c1) i1 = Some ci1))) 432 ;;;
-    dassert (ret (bool_decide (zget (n_cix_in_parent c2) i2 = Some ci2))) 433 ;;;
-    (if bool_decide (0 <= i1 < zlen (n_cix_in_parent c1)) && bool_decide (0 <= i2 < zlen (n_cix_in_parent c2))
-     then ret tt else panic (PIndex 434)) ;;;
-    upd_node child1 (fun c => c <| n_cix_in_parent := zset (n_cix_in_parent c) i1 ci2 |>) ;;;
-    upd_node child2 (fun c => c <| n_cix_in_parent := zset (n_cix_in_parent c) i2 ci1 |>) ;;;
-    upd_node n (fun p => p <| n_pix_in_child := zset (zset (n_pix_in_child p) ci1 i2) ci2 i1 |>)
-  | _, _ => panic (PIndex 435)
-  end.
-
-(* ExpertNode::swap_children (kind/expert.rs:141): the two index cells and the two vector entries *)
-Definition ex_swap_children (x : nat) (one two : Z) : M unit :=
-  ex <- get_expert x ;;
-  match zget (ex_children ex) one, zget (ex_children ex) two with
-  | Some a, Some b =>
-      ea <- get_edge a ;;
-      eb <- get_edge b ;;
-      upd_edge a (fun d => d <| ed_index := ed_index eb |>) ;;;
-      upd_edge b (fun d => d <| ed_index := ed_index ea |>) ;;;
-      upd_expert x (fun ex => ex <| ex_children := zset (zset (ex_children ex) one b) two a |>)
-  | _, _ => panic (PIndex 423)
-  end.
-
-(* ExpertNode::pop_child_edge (kind/expert.rs:158) *)
-Definition ex_pop_child_edge (x : nat) : M (option nat) :=
-  ex <- get_expert x ;;
-  match stdpp.list.last (ex_children ex) with
-  | None => ret None
-  | Some popped =>
-      upd_expert x (fun ex => ex <| ex_children := removelast (ex_children ex) |> <| ex_force_stale := true |>) ;;;
-      upd_edge popped (fun d => d <| ed_index := None |>) ;;;
-      ret (Some popped)
-  end.
-
-(* Node::remove_dependency + expert_remove_dependency (node.rs:1215) *)
-Definition expert_remove_dependency (fuel : nat) (n : nid) (eid : nat) : M unit :=
-  ed <- get_edge eid ;;
-  (* dep.edge.upgrade().unwrap(): the edge lives as long as it is among some node's children *)
-  match ed_index ed with
-  | None => panic (PUnwrapNone 420)
-  | Some edge_index =>
-    x <- get_node n ;;
-    match node_kind x with
-    | Some (KExpert e) =>
-      assert_running_is_child n ;;;
-      ex <- get_expert e ;;
-      match stdpp.list.last (ex_children ex) with
-      | None => panic (PUnwrapNone 421)
-      | Some last_edge =>
-        led <- get_edge last_edge ;;
-        match ed_index led with
-        | None => panic (PUnwrapNone 422)
-        | Some last_index =>
-          (if bool_decide (edge_index = last_index) then ret tt else
-             x <- get_node n ;;
-             (if is_necessary x
-              then expert_swap_children_except_in_kind n (ed_child ed) edge_index (ed_child led) last_index
-              else ret tt) ;;;
-             ex_swap_children e edge_index last_index) ;;;
-          upd_expert e (fun ex => ex <| ex_force_stale := true |>) ;;;
-          dassert (x <- get_node n ;; s <- get ;; ret (is_stale s x)) 424 ;;;
-          x <- get_node n ;;
-          (if is_necessary x then
-             (* expert_remove_child (node.rs:1296) *)
-             remove_parent (ed_child ed) last_index n ;;;
-             check_if_unnecessary fuel (ed_child ed) ;;;
-             x <- get_node n ;;
-             (if in_rch x then ret tt else rch_insert n) ;;;
-             c <- get_node (ed_child ed) ;;
-             (* decr_invalid_children (kind/expert.rs:118) *)
-             if n_valid c then ret tt else upd_expert e (fun ex => ex <| ex_num_invalid := ex_num_invalid ex - 1 |>)
-           else ret tt) ;;;
-          popped <- ex_pop_child_edge e ;;
-          match popped with
-          | None => panic (PUnwrapNone 425)
-          | Some popped => dassert (ret (bool_decide (popped = eid))) 426
-          end
-        end
-      end
-    | _ => ret tt
-    end
-  end.
-
-(* expert::invalidate (state/expert.rs:63) *)
-Definition expert_invalidate (fuel : nat) (n : nid) : M unit :=
-  assert_running_is_child n ;;;
-  invalidate_node fuel n ;;;
-  propagate_invalidity fuel.
-
-(* a closure reaches a node through the program's handle table when it runs *)
-Definition with_handle (h : nat) (k : nid -> M unit) : M unit :=
-  s <- get ;; match handles s !! h with Some (Some n) => k n | _ => ret tt end.
-Definition slot_get (sl : nat) : M (option nat) := s <- get ;; ret (mjoin (dep_slots s !! sl)).
-Definition slot_set (sl : nat) (v : option nat) : M unit :=
-  modify (fun s => s <| dep_slots := <[sl := v]> (dep_slots s ++ replicate (S sl - length (dep_slots s)) None) |>).
-
-Definition run_effect (fuel : nat) (arg : val) (e : effect) : M unit :=
-  match e with
-  | EDropVar x => with_var_handle x (drop_var_handle x)
-  | ESet x v => with_var_handle x (var_write x (fun _ => VInt v) ;;; ret tt)
-  | ESetArg x => with_var_handle x (var_write x (fun _ => arg) ;;; ret tt)
-  | EUpdate x d => with_var_handle x (var_write x (fun o => VInt (as_int o + d)) ;;; ret tt)
-  | EModify x d => with_var_handle x (var_write x (fun o => VInt (as_int o + d)) ;;; ret tt)
-  | EReplace x v => with_var_handle x (old <- var_write x (fun _ => VInt v) ;; emit (EvEffReplace x old))
-  | EReplaceWith x d => with_var_handle x (old <- var_write x (fun o => VInt (as_int o + d)) ;; emit (EvEffReplace x old))
-  | EGet x => with_var_handle x (v <- get_var x ;; emit (EvEffGet x (v_value v)))
-  | ERead o => r <- observer_read o ;;
-               emit (EvEffRead o (match r with inl v => inl (Ok v) | inr c => inr c end))
-  | EAddDep e h sl cb =>
-      with_handle e (fun en => with_handle h (fun child =>
-        d <- expert_add_dependency fuel en child cb ;; slot_set sl (Some d)))
-  | ERemoveDep e sl =>
-      with_handle e (fun en =>
-        d <- slot_get sl ;;
-        match d with
-        | Some d => slot_set sl None ;;; expert_remove_dependency fuel en d
-        | None => ret tt
-        end)
-  | ESwapDep e sl hs cb =>
-      with_handle e (fun en =>
-        match hs !! Z.to_nat (as_int arg `mod` zlen hs) with
-        | Some h =>
-          with_handle h (fun child =>
-            new <- expert_add_dependency fuel en child cb ;;
-            prev <- slot_get sl ;;
-            slot_set sl None ;;;
-            (match prev with Some p => expert_remove_dependency fuel en p | None => ret tt end) ;;;
-            slot_set sl (Some new))
-        | None => ret tt
-        end)
-  | EMakeStale e => with_handle e expert_make_stale
-  | EInvalidateExpert e => with_handle e (expert_invalidate fuel)
-  | EStabilise => st <- gets st_status ;;
-                  match st with NotStabilising => panic (PModelGap 10) | _ => panic PNestedStabilise end
-  | EPanic => panic PInjected
-  end.
-
-Definition run_effects (fuel : nat) (arg : val) (effs : list effect) : M unit := forM_ effs (run_effect fuel arg).
-
-(* Cutoff::should_cutoff (cutoff.rs:64) *)
-Definition should_cutoff (n : nid) (c : cutoff) (old new : val) : M bool :=
-  match c with
-  | CAlways => ret true
-  | CNever => ret false
-  | CPartialEq => ret (val_eqb old new)
-  | CFn cid | CBoxed cid =>
-      user_call ;;;
-      let r := cut_sem cid old new in
-      emit (EvCut n old new r) ;;; ret r
-  | CPreserve i =>
-      ix <- get_node i ;; x <- get_node n ;;
-      (if n_live ix && n_live x then ret tt else panic (PAssert 240)) ;;;
-      ret (bool_decide (n_changed_at ix = n_changed_at x))
-  end.
-
-(* child_changed (node.rs:1268) *)
-Fixpoint child_changed (fuel : nat) (p child : nid) (ci : Z) (old : option val) : M unit :=
-  match fuel with
-  | O => out_of_fuel
-  | S f =>
-    px <- get_node p ;;
-    match node_kind px with
-    | None => panic (PUnwrapNone 301)                  (* Err(ParentInvalidated).unwrap() *)
-    | Some (KMapRef pr _) =>
-      let self_old := proj_sem pr <$> old in
-      cv <- value_of child ;;
-      match cv with
-      | None => panic (PUnwrapNone 302)                (* Err(ChildHasNoValue).unwrap() *)
-      | Some child_new =>
-        let self_new := proj_sem pr child_new in
-        did_change <- match self_old with
-                      | None => ret true
-                      | Some o => r <- should_cutoff p (n_cutoff px) o self_new ;; ret (negb r)
-                      end ;;
-        upd_node p (fun x => x <| n_mapref_did_change := did_change |>) ;;;
-        px <- get_node p ;;
-        forM_ (indexed (n_parents px)) (fun ipp =>
-          ppx <- get_node ipp.2 ;;
-          if n_live ppx then
-            match zget (n_cix_in_parent px) ipp.1 with
-            | None => panic (PIndex 303)
-            | Some ci' => child_changed f ipp.2 p ci' self_old
-            end
-          else ret tt)
-      end
-    | Some (KExpert e) => run_edge_callback p e ci
-    | Some _ => ret tt
-    end
-  end.
-
-(* parent_iter_can_recompute_now (node.rs:783) *)
-Definition parent_iter_can_recompute_now (parent child : nid) : M bool :=
-  p <- get_node parent ;;
-  c <- get_node child ;;
-  match node_kind p with
-  | None => ret false
-  | Some k =>
-    (* the scope's lhs-change node must have left the heap: scope height < min_height *)
-    let settled (h : Z) : M bool :=
-      if bool_decide (h < n_height c) then mh <- rch_min_height ;; ret (bool_decide (h < mh))
-      else ret false in
-    crn <- match k with
-           | KConst _ | KVar _ => panic (PAssert 310)
-           | KFold _ _ _ | KExpert _ => ret false
-           | KMap _ cs =>
-               if bool_decide (length cs = 1%nat) then
-                 sh <- scope_height (n_created_in p) ;; settled sh
-               else ret false
-           | KBindLhs _ | KMapRef _ _ | KMapWithOld _ _ =>
-               sh <- scope_height (n_created_in p) ;; settled sh
-           | KBindMain _ lc =>
-               l <- get_node lc ;; settled (n_height l)
-           end ;;
-    ok <- (if crn : bool then ret true
-           else mh <- rch_min_height ;; ret (bool_decide (n_height p <= mh))) ;;
-    if ok : bool then ret true
-    else
-      dassert (p <- get_node parent ;; s <- get ;; ret (needs_to_be_computed s p)) 311 ;;;
-      dassert (p <- get_node parent ;; ret (negb (in_rch p))) 312 ;;;
-      rch_insert parent ;;;
-      ret false
-  end.
-
-(* maybe_change_value_manual (node.rs:1681) *)
-Definition maybe_change_value_manual (fuel : nat) (n : nid) (old : option val) (did_change run_cc : bool)
-  : M (option nid) :=
-  if negb did_change then ret None else
-  st <- gets stab_num ;;
-  upd_node n (fun x => x <| n_changed_at := st |>) ;;;
-  modify (fun s => s <| num_changed := num_changed s + 1 |>) ;;;
-  maybe_handle_after_stabilisation n ;;;
-  x <- get_node n ;;
-  let parents := indexed (n_parents x) in
-  (* child_changed + the needs_to_be_computed assertion, common to both loops; false = the parent's
-     weak reference was dead (`return None`) *)
-  let visit (ip : Z * nid) (site : Z) : M bool :=
-    match zget (n_cix_in_parent x) ip.1 with
-    | None => panic (PIndex 320)
-    | Some ci =>
-      px <- get_node ip.2 ;;
-      if negb (n_live px) then ret false else
-      (if run_cc then child_changed fuel ip.2 n ci old else ret tt) ;;;
-      dassert (p <- get_node ip.2 ;; s <- get ;; ret (needs_to_be_computed s p)) site ;;;
-      ret true
-    end in
-  match parents with
-  | [] => ret None
-  | first :: rest =>
-    (* all parents but the first: queue them *)
-    continue <- forM_break rest (fun ip =>
-      ok <- visit ip 321 ;;
-      if ok : bool then
-        p <- get_node ip.2 ;;
-        (if in_rch p then ret tt else rch_insert ip.2) ;;; ret true
-      else ret false) ;;
-    if continue : bool then
-      (* the first parent may be recomputed directly *)
-      ok <- visit first 322 ;;
-      if ok : bool then
-        p <- get_node first.2 ;;
-        if in_rch p then ret None
-        else ok <- parent_iter_can_recompute_now first.2 n ;; ret (if ok : bool then Some first.2 else None)
-      else ret None
-    else ret None
-  end.
-
-(* maybe_change_value (node.rs:1662) *)
-Definition maybe_change_value (fuel : nat) (n : nid) (value : val) : M (option nid) :=
-  x <- get_node n ;;
-  let old := n_value x in
-  upd_node n (fun x => x <| n_value := None |>) ;;;
-  should_change <- match old with
-                   | None => ret true
-                   | Some o => r <- should_cutoff n (n_cutoff x) o value ;; ret (negb r)
-                   end ;;
-  upd_node n (fun x => x <| n_value := Some value |>) ;;;
-  maybe_change_value_manual fuel n old should_change true.
-
 (* ------------------------------------------------------------ node creation (node.rs:1598-1653, scope.rs:73) *)
 Definition new_node (k : kind) (sc : scope) : node :=
   Node k true None CPartialEq (-1) (-1) 0 [] sc [] [-1] (-1) (-1) (-1) false false [] true true.
@@ -1278,6 +962,434 @@ with memo_call (fuel : nat) (m : nat) (key : Z) : M nid :=
     end
   end.
 
+(* ------------------------------------------------------------ expert nodes, part 2 (node.rs:1140-1300, state/expert.rs) *)
+(* assert_currently_running_node_is_child (node.rs:1146): debug builds only *)
+Definition assert_running_is_child (n : nid) : M unit :=
+  d <- gets debug ;;
+  if d : bool then
+    s <- get ;;
+    match cur_running s with
+    | None => panic POnlyDuringStabilise
+    | Some c =>
+        cx <- get_node c ;;
+        x <- get_node n ;;
+        if n_live cx && bool_decide (c ∈ children_of s x) then ret tt else panic PNotAChild
+    end
+  else ret tt.
+
+(* expert_make_stale (node.rs:1167) *)
+Definition expert_make_stale (n : nid) : M unit :=
+  x <- get_node n ;;
+  match node_kind x with
+  | Some (KExpert e) =>
+    assert_running_is_child n ;;;
+    ex <- get_expert e ;;
+    if ex_force_stale ex then ret tt else
+    upd_expert e (fun ex => ex <| ex_force_stale := true |>) ;;;
+    x <- get_node n ;;
+    if is_necessary x && negb (in_rch x) then rch_insert n else ret tt
+  | _ => ret tt
+  end.
+
+(* Node::add_dependency(_with) + expert_add_dependency (node.rs:1187).  Returns the edge (what the
+   Dependency points to); when the node is not a valid expert node the edge is dropped at once. *)
+Definition expert_add_dependency (fuel : nat) (n child : nid) (cb : cbk) : M nat :=
+  s <- get ;;
+  let eid := length (edges s) in
+  x <- get_node n ;;
+  match node_kind x with
+  | Some (KExpert e) =>
+    ex <- get_expert e ;;
+    let ci := zlen (ex_children ex) in
+    modify (fun s => s <| edges := edges s ++ [Edge child cb (Some ci) None] |>) ;;;
+    upd_expert e (fun ex => ex <| ex_children := ex_children ex ++ [eid] |> <| ex_force_stale := true |>) ;;;
+    x <- get_node n ;;
+    (if is_necessary x then
+       state_add_parent fuel child ci n ;;;
+       dassert (x <- get_node n ;; s <- get ;; ret (needs_to_be_computed s x)) 410 ;;;
+       x <- get_node n ;;
+       if in_rch x then ret tt else rch_insert n
+     else ret tt) ;;;
+    ret eid
+  | _ =>
+    modify (fun s => s <| edges := edges s ++ [Edge child cb None None] |>) ;;; ret eid
+  end.
+
+(* expert_swap_children_except_in_kind (node.rs:1267) *)
+Definition expert_swap_children_except_in_kind (n child1 : nid) (ci1 : Z) (child2 : nid) (ci2 : Z) : M unit :=
+  dassert (s <- get ;; x <- get_node n ;;
+           ret (bool_decide (zget (children_of s x) ci1 = Some child1) && bool_decide (zget (children_of s x) ci2 = Some child2))) 430 ;;;
+  (* the index arrays of parent, child1 and child2 are mutably borrowed together (one borrow when the two
+     edges lead to the same child) *)
+  (if bool_decide (n = child1) || bool_decide (n = child2) then panic (PBorrow 431) else ret tt) ;;;
+  p <- get_node n ;;
+  c1 <- get_node child1 ;;
+  c2 <- get_node child2 ;;
+  match zget (n_pix_in_child p) ci1, zget (n_pix_in_child p) ci2 with
+  | Some i1, Some i2 =>
+    dassert (ret (bool_decide (zget (n_cix_in_parent c1) i1 = Some ci1))) 432 ;;;
+    dassert (ret (bool_decide (zget (n_cix_in_parent c2) i2 = Some ci2))) 433 ;;;
+    (if bool_decide (0 <= i1 < zlen (n_cix_in_parent c1)) && bool_decide (0 <= i2 < zlen (n_cix_in_parent c2))
+     then ret tt else panic (PIndex 434)) ;;;
+    upd_node child1 (fun c => c <| n_cix_in_parent := zset (n_cix_in_parent c) i1 ci2 |>) ;;;
+    upd_node child2 (fun c => c <| n_cix_in_parent := zset (n_cix_in_parent c) i2 ci1 |>) ;;;
+    upd_node n (fun p => p <| n_pix_in_child := zset (zset (n_pix_in_child p) ci1 i2) ci2 i1 |>)
+  | _, _ => panic (PIndex 435)
+  end.
+
+(* ExpertNode::swap_children (kind/expert.rs:141): the two index cells and the two vector entries *)
+Definition ex_swap_children (x : nat) (one two : Z) : M unit :=
+  ex <- get_expert x ;;
+  match zget (ex_children ex) one, zget (ex_children ex) two with
+  | Some a, Some b =>
+      ea <- get_edge a ;;
+      eb <- get_edge b ;;
+      upd_edge a (fun d => d <| ed_index := ed_index eb |>) ;;;
+      upd_edge b (fun d => d <| ed_index := ed_index ea |>) ;;;
+      upd_expert x (fun ex => ex <| ex_children := zset (zset (ex_children ex) one b) two a |>)
+  | _, _ => panic (PIndex 423)
+  end.
+
+(* ExpertNode::pop_child_edge (kind/expert.rs:158) *)
+Definition ex_pop_child_edge (x : nat) : M (option nat) :=
+  ex <- get_expert x ;;
+  match stdpp.list.last (ex_children ex) with
+  | None => ret None
+  | Some popped =>
+      upd_expert x (fun ex => ex <| ex_children := removelast (ex_children ex) |> <| ex_force_stale := true |>) ;;;
+      upd_edge popped (fun d => d <| ed_index := None |>) ;;;
+      ret (Some popped)
+  end.
+
+(* Node::remove_dependency + expert_remove_dependency (node.rs:1215) *)
+Definition expert_remove_dependency (fuel : nat) (n : nid) (eid : nat) : M unit :=
+  ed <- get_edge eid ;;
+  (* dep.edge.upgrade().unwrap(): the edge lives as long as it is among some node's children *)
+  match ed_index ed with
+  | None => panic (PUnwrapNone 420)
+  | Some edge_index =>
+    x <- get_node n ;;
+    match node_kind x with
+    | Some (KExpert e) =>
+      assert_running_is_child n ;;;
+      ex <- get_expert e ;;
+      match stdpp.list.last (ex_children ex) with
+      | None => panic (PUnwrapNone 421)
+      | Some last_edge =>
+        led <- get_edge last_edge ;;
+        match ed_index led with
+        | None => panic (PUnwrapNone 422)
+        | Some last_index =>
+          (if bool_decide (edge_index = last_index) then ret tt else
+             x <- get_node n ;;
+             (if is_necessary x
+              then expert_swap_children_except_in_kind n (ed_child ed) edge_index (ed_child led) last_index
+              else ret tt) ;;;
+             ex_swap_children e edge_index last_index) ;;;
+          upd_expert e (fun ex => ex <| ex_force_stale := true |>) ;;;
+          dassert (x <- get_node n ;; s <- get ;; ret (is_stale s x)) 424 ;;;
+          x <- get_node n ;;
+          (if is_necessary x then
+             (* expert_remove_child (node.rs:1296) *)
+             remove_parent (ed_child ed) last_index n ;;;
+             check_if_unnecessary fuel (ed_child ed) ;;;
+             x <- get_node n ;;
+             (if in_rch x then ret tt else rch_insert n) ;;;
+             c <- get_node (ed_child ed) ;;
+             (* decr_invalid_children (kind/expert.rs:118) *)
+             if n_valid c then ret tt else upd_expert e (fun ex => ex <| ex_num_invalid := ex_num_invalid ex - 1 |>)
+           else ret tt) ;;;
+          popped <- ex_pop_child_edge e ;;
+          match popped with
+          | None => panic (PUnwrapNone 425)
+          | Some popped => dassert (ret (bool_decide (popped = eid))) 426
+          end
+        end
+      end
+    | _ => ret tt
+    end
+  end.
+
+(* expert::invalidate (state/expert.rs:63) *)
+Definition expert_invalidate (fuel : nat) (n : nid) : M unit :=
+  assert_running_is_child n ;;;
+  invalidate_node fuel n ;;;
+  propagate_invalidity fuel.
+
+(* ------------------------------------------------------------ per-key operators (incremental-map btree_map.rs:138-232, im_rc.rs:463-560) *)
+(* the differing keys of two key-sorted maps, ascending: what symmetric_fold visits (C18) *)
+Inductive dkind := DLeft | DRight | DUnequal.
+Fixpoint zm_diff_aux (fuel : nat) (a b : list (Z * Z)) : list (Z * dkind) :=
+  match fuel with
+  | O => []
+  | S f =>
+    match a, b with
+    | [], [] => []
+    | (k, _) :: a', [] => (k, DLeft) :: zm_diff_aux f a' []
+    | [], (k, _) :: b' => (k, DRight) :: zm_diff_aux f [] b'
+    | (k1, v1) :: a', (k2, v2) :: b' =>
+        if bool_decide (k1 < k2) then (k1, DLeft) :: zm_diff_aux f a' b
+        else if bool_decide (k2 < k1) then (k2, DRight) :: zm_diff_aux f a b'
+        else if bool_decide (v1 = v2) then zm_diff_aux f a' b'
+        else (k1, DUnequal) :: zm_diff_aux f a' b'
+    end
+  end.
+Definition zm_diff (a b : list (Z * Z)) : list (Z * dkind) := zm_diff_aux (length a + length b) a b.
+
+Fixpoint pk_find (k : Z) (l : list (Z * (nid * nat))) : option (nid * nat) :=
+  match l with
+  | [] => None
+  | (k', x) :: l' => if bool_decide (k' = k) then Some x else pk_find k l'
+  end.
+
+(* WeakNode::upgrade().unwrap() *)
+Definition upgrade_unwrap (n : nid) (site : Z) : M unit :=
+  x <- get_node n ;; if n_live x then ret tt else panic (PUnwrapNone site).
+
+(* the closure given to map_cyclic: one pass over the difference between the previous and the new map *)
+Definition perkey_visit (fuel : nat) (pk : nat) (kd : Z * dkind) : M unit :=
+    let key := kd.1 in
+    r <- get_perkey pk ;;
+    match kd.2 with
+    | DUnequal =>
+        match pk_find key (pk_nodes r) with
+        | None => panic (PUnwrapNone 500)
+        | Some (node, _) =>
+            (* the per-key node is gone when the user's function never used its input *)
+            x <- get_node node ;; if n_live x then expert_make_stale node else ret tt
+        end
+    | DLeft =>
+        match pk_find key (pk_nodes r) with
+        | None => panic (PUnwrapNone 502)
+        | Some (node, dep) =>
+            upd_perkey pk (fun r => r <| pk_nodes := filter (fun kx => kx.1 <> key) (pk_nodes r) |>) ;;;
+            x <- get_node node ;;
+            upgrade_unwrap (pk_result r) 504 ;;;
+            expert_remove_dependency fuel (pk_result r) dep ;;;
+            upd_perkey pk (fun r => r <| pk_acc := zm_del key (pk_acc r) |>) ;;;
+            if n_live x then expert_invalidate fuel node else ret tt
+        end
+    | DRight =>
+        s <- get ;;
+        modify (fun s => s <| experts := experts s ++ [Expert 3 [] false 0 true pk key] |>) ;;;
+        node <- create_node (KExpert (length (experts s))) ;;
+        (match pk_cutoff r with
+         | Some c => upd_node node (fun x => x <| n_cutoff := c |>)
+         | None => ret tt
+         end) ;;;
+        upgrade_unwrap (pk_lhs_change r) 505 ;;;
+        expert_add_dependency fuel node (pk_lhs_change r) CbNone ;;;
+        (* the user's function: harness code *)
+        user_call ;;;
+        emit (EvPerKeyFn pk key) ;;;
+        mapped <- (match subst_bindfn 0 [node] (pk_fn r) with
+                   | BindFn _ [(body, ret_)] => instantiate fuel (VInt key) body ret_
+                   | _ => panic (PModelGap 60)
+                   end) ;;
+        match mapped with
+        | None => panic (PModelGap 61)
+        | Some mapped =>
+            upgrade_unwrap (pk_result r) 506 ;;;
+            dep <- expert_add_dependency fuel (pk_result r) mapped (CbPerKey pk key) ;;
+            upd_perkey pk (fun r => r <| pk_nodes := (key, (node, dep)) :: pk_nodes r |>)
+        end
+    end.
+
+Definition perkey_step (fuel : nat) (pk : nat) (new : list (Z * Z)) : M unit :=
+  r0 <- get_perkey pk ;;
+  forM_ (zm_diff (pk_prev r0) new) (perkey_visit fuel pk) ;;;
+  upd_perkey pk (fun r => r <| pk_prev := new |>).
+
+(* a closure reaches a node through the program's handle table when it runs *)
+Definition with_handle (h : nat) (k : nid -> M unit) : M unit :=
+  s <- get ;; match handles s !! h with Some (Some n) => k n | _ => ret tt end.
+Definition slot_get (sl : nat) : M (option nat) := s <- get ;; ret (mjoin (dep_slots s !! sl)).
+Definition slot_set (sl : nat) (v : option nat) : M unit :=
+  modify (fun s => s <| dep_slots := <[sl := v]> (dep_slots s ++ replicate (S sl - length (dep_slots s)) None) |>).
+
+Definition run_effect (fuel : nat) (arg : val) (e : effect) : M unit :=
+  match e with
+  | EDropVar x => with_var_handle x (drop_var_handle x)
+  | ESet x v => with_var_handle x (var_write x (fun _ => VInt v) ;;; ret tt)
+  | ESetArg x => with_var_handle x (var_write x (fun _ => arg) ;;; ret tt)
+  | EUpdate x d => with_var_handle x (var_write x (fun o => VInt (as_int o + d)) ;;; ret tt)
+  | EModify x d => with_var_handle x (var_write x (fun o => VInt (as_int o + d)) ;;; ret tt)
+  | EReplace x v => with_var_handle x (old <- var_write x (fun _ => VInt v) ;; emit (EvEffReplace x old))
+  | EReplaceWith x d => with_var_handle x (old <- var_write x (fun o => VInt (as_int o + d)) ;; emit (EvEffReplace x old))
+  | EGet x => with_var_handle x (v <- get_var x ;; emit (EvEffGet x (v_value v)))
+  | ERead o => r <- observer_read o ;;
+               emit (EvEffRead o (match r with inl v => inl (Ok v) | inr c => inr c end))
+  | EAddDep e h sl cb =>
+      with_handle e (fun en => with_handle h (fun child =>
+        d <- expert_add_dependency fuel en child (if cb then CbLog else CbNone) ;; slot_set sl (Some d)))
+  | ERemoveDep e sl =>
+      with_handle e (fun en =>
+        d <- slot_get sl ;;
+        match d with
+        | Some d => slot_set sl None ;;; expert_remove_dependency fuel en d
+        | None => ret tt
+        end)
+  | ESwapDep e sl hs cb =>
+      with_handle e (fun en =>
+        match hs !! Z.to_nat (as_int arg `mod` zlen hs) with
+        | Some h =>
+          with_handle h (fun child =>
+            new <- expert_add_dependency fuel en child (if cb then CbLog else CbNone) ;;
+            prev <- slot_get sl ;;
+            slot_set sl None ;;;
+            (match prev with Some p => expert_remove_dependency fuel en p | None => ret tt end) ;;;
+            slot_set sl (Some new))
+        | None => ret tt
+        end)
+  | EPerKeyStep pk => match arg with VMap m => perkey_step fuel pk m | _ => panic (PModelGap 62) end
+  | EMakeStale e => with_handle e expert_make_stale
+  | EInvalidateExpert e => with_handle e (expert_invalidate fuel)
+  | EStabilise => st <- gets st_status ;;
+                  match st with NotStabilising => panic (PModelGap 10) | _ => panic PNestedStabilise end
+  | EPanic => panic PInjected
+  end.
+
+Definition run_effects (fuel : nat) (arg : val) (effs : list effect) : M unit := forM_ effs (run_effect fuel arg).
+
+(* Cutoff::should_cutoff (cutoff.rs:64) *)
+Definition should_cutoff (n : nid) (c : cutoff) (old new : val) : M bool :=
+  match c with
+  | CAlways => ret true
+  | CNever => ret false
+  | CPartialEq => ret (val_eqb old new)
+  | CFn cid | CBoxed cid =>
+      user_call ;;;
+      let r := cut_sem cid old new in
+      emit (EvCut n old new r) ;;; ret r
+  | CPreserve i =>
+      ix <- get_node i ;; x <- get_node n ;;
+      (if n_live ix && n_live x then ret tt else panic (PAssert 240)) ;;;
+      ret (bool_decide (n_changed_at ix = n_changed_at x))
+  end.
+
+(* child_changed (node.rs:1268) *)
+Fixpoint child_changed (fuel : nat) (p child : nid) (ci : Z) (old : option val) : M unit :=
+  match fuel with
+  | O => out_of_fuel
+  | S f =>
+    px <- get_node p ;;
+    match node_kind px with
+    | None => panic (PUnwrapNone 301)                  (* Err(ParentInvalidated).unwrap() *)
+    | Some (KMapRef pr _) =>
+      let self_old := proj_sem pr <$> old in
+      cv <- value_of child ;;
+      match cv with
+      | None => panic (PUnwrapNone 302)                (* Err(ChildHasNoValue).unwrap() *)
+      | Some child_new =>
+        let self_new := proj_sem pr child_new in
+        did_change <- match self_old with
+                      | None => ret true
+                      | Some o => r <- should_cutoff p (n_cutoff px) o self_new ;; ret (negb r)
+                      end ;;
+        upd_node p (fun x => x <| n_mapref_did_change := did_change |>) ;;;
+        px <- get_node p ;;
+        forM_ (indexed (n_parents px)) (fun ipp =>
+          ppx <- get_node ipp.2 ;;
+          if n_live ppx then
+            match zget (n_cix_in_parent px) ipp.1 with
+            | None => panic (PIndex 303)
+            | Some ci' => child_changed f ipp.2 p ci' self_old
+            end
+          else ret tt)
+      end
+    | Some (KExpert e) => run_edge_callback p e ci
+    | Some _ => ret tt
+    end
+  end.
+
+(* parent_iter_can_recompute_now (node.rs:783) *)
+Definition parent_iter_can_recompute_now (parent child : nid) : M bool :=
+  p <- get_node parent ;;
+  c <- get_node child ;;
+  match node_kind p with
+  | None => ret false
+  | Some k =>
+    (* the scope's lhs-change node must have left the heap: scope height < min_height *)
+    let settled (h : Z) : M bool :=
+      if bool_decide (h < n_height c) then mh <- rch_min_height ;; ret (bool_decide (h < mh))
+      else ret false in
+    crn <- match k with
+           | KConst _ | KVar _ => panic (PAssert 310)
+           | KFold _ _ _ | KExpert _ => ret false
+           | KMap _ cs =>
+               if bool_decide (length cs = 1%nat) then
+                 sh <- scope_height (n_created_in p) ;; settled sh
+               else ret false
+           | KBindLhs _ | KMapRef _ _ | KMapWithOld _ _ =>
+               sh <- scope_height (n_created_in p) ;; settled sh
+           | KBindMain _ lc =>
+               l <- get_node lc ;; settled (n_height l)
+           end ;;
+    ok <- (if crn : bool then ret true
+           else mh <- rch_min_height ;; ret (bool_decide (n_height p <= mh))) ;;
+    if ok : bool then ret true
+    else
+      dassert (p <- get_node parent ;; s <- get ;; ret (needs_to_be_computed s p)) 311 ;;;
+      dassert (p <- get_node parent ;; ret (negb (in_rch p))) 312 ;;;
+      rch_insert parent ;;;
+      ret false
+  end.
+
+(* maybe_change_value_manual (node.rs:1681) *)
+Definition maybe_change_value_manual (fuel : nat) (n : nid) (old : option val) (did_change run_cc : bool)
+  : M (option nid) :=
+  if negb did_change then ret None else
+  st <- gets stab_num ;;
+  upd_node n (fun x => x <| n_changed_at := st |>) ;;;
+  modify (fun s => s <| num_changed := num_changed s + 1 |>) ;;;
+  maybe_handle_after_stabilisation n ;;;
+  x <- get_node n ;;
+  let parents := indexed (n_parents x) in
+  (* child_changed + the needs_to_be_computed assertion, common to both loops; false = the parent's
+     weak reference was dead (`return None`) *)
+  let visit (ip : Z * nid) (site : Z) : M bool :=
+    match zget (n_cix_in_parent x) ip.1 with
+    | None => panic (PIndex 320)
+    | Some ci =>
+      px <- get_node ip.2 ;;
+      if negb (n_live px) then ret false else
+      (if run_cc then child_changed fuel ip.2 n ci old else ret tt) ;;;
+      dassert (p <- get_node ip.2 ;; s <- get ;; ret (needs_to_be_computed s p)) site ;;;
+      ret true
+    end in
+  match parents with
+  | [] => ret None
+  | first :: rest =>
+    (* all parents but the first: queue them *)
+    continue <- forM_break rest (fun ip =>
+      ok <- visit ip 321 ;;
+      if ok : bool then
+        p <- get_node ip.2 ;;
+        (if in_rch p then ret tt else rch_insert ip.2) ;;; ret true
+      else ret false) ;;
+    if continue : bool then
+      (* the first parent may be recomputed directly *)
+      ok <- visit first 322 ;;
+      if ok : bool then
+        p <- get_node first.2 ;;
+        if in_rch p then ret None
+        else ok <- parent_iter_can_recompute_now first.2 n ;; ret (if ok : bool then Some first.2 else None)
+      else ret None
+    else ret None
+  end.
+
+(* maybe_change_value (node.rs:1662) *)
+Definition maybe_change_value (fuel : nat) (n : nid) (value : val) : M (option nid) :=
+  x <- get_node n ;;
+  let old := n_value x in
+  upd_node n (fun x => x <| n_value := None |>) ;;;
+  should_change <- match old with
+                   | None => ret true
+                   | Some o => r <- should_cutoff n (n_cutoff x) o value ;; ret (negb r)
+                   end ;;
+  upd_node n (fun x => x <| n_value := Some value |>) ;;;
+  maybe_change_value_manual fuel n old should_change true.
+
 (* ------------------------------------------------------------ recompute (node.rs:590-779) *)
 Definition unwrap_value (n : nid) (site : Z) : M val :=
   v <- value_of n ;; match v with Some v => ret v | None => panic (PUnwrapNone site) end.
@@ -1308,10 +1420,11 @@ Definition recompute_one (fuel : nat) (n : nid) : M (option nid) :=
   | Some (KMap f cs) =>
       args <- mapM (fun c => unwrap_value c 340) cs ;;
       let r := fn_sem (c_fid f) (c_cap f) args in
-      (if c_internal f then ret tt else
-         user_call ;;;
-         run_effects fuel (default VUnit (args !! 0%nat)) (c_effs f) ;;;
-         emit (EvInv n (c_cap f) args r)) ;;;
+      (* a closure the library supplies is neither a crash point nor logged; it may still have an effect
+         (the map_cyclic closure of a per-key operator) *)
+      (if c_internal f then ret tt else user_call) ;;;
+      run_effects fuel (default VUnit (args !! 0%nat)) (c_effs f) ;;;
+      (if c_internal f then ret tt else emit (EvInv n (c_cap f) args r)) ;;;
       maybe_change_value fuel n r
   | Some (KVar v) =>
       vr <- get_var v ;; maybe_change_value fuel n (v_value vr)
@@ -1388,9 +1501,20 @@ Definition recompute_one (fuel : nat) (n : nid) : M (option nid) :=
       else
         upd_expert e (fun ex => ex <| ex_force_stale := false |> <| ex_fire_all := false |>) ;;;
         (if ex_fire_all ex then forM_ (ex_children ex) (edge_on_change n) else ret tt) ;;;
+        ex <- get_expert e ;;
+        if bool_decide (ex_mode ex = 2) then
+          (* the result node of a per-key operator: acc.clone() *)
+          r <- get_perkey (ex_pk ex) ;; maybe_change_value fuel n (VMap (pk_acc r))
+        else if bool_decide (ex_mode ex = 3) then
+          (* a per-key node: prev_map.get(&key).unwrap().clone() *)
+          r <- get_perkey (ex_pk ex) ;;
+          match zm_get (ex_key ex) (pk_prev r) with
+          | None => panic (PUnwrapNone 441)
+          | Some v => maybe_change_value fuel n (VInt v)
+          end
+        else
         (* the recompute function of the harness *)
         user_call ;;;
-        ex <- get_expert e ;;
         total <- foldM (fun acc eid =>
                    ed <- get_edge eid ;;
                    if bool_decide (ex_mode ex = 0)
